@@ -8,6 +8,7 @@ sys.path.insert(0, os.path.dirname(os.path.abspath(__file__)))
 
 WORDS = ['apple', 'Apple', 'APPLE', 'Banana', 'cherry', 'delta', '42', '7up', '#hash', '_under', '_other', 'zeta', 'Echo', 'echo', 'mango', 'Mango', 'kiwi fruit', 'a b']
 ACCENTED = ['\u00e9clair', '\u00c5ngstr\u00f6m']
+ODD = ['\U0001F600smile', '\u200bzero']      # initials that transliterate to nothing / to a blank
 
 
 def parse_entry(s):
@@ -42,7 +43,7 @@ def display_text(d):
 
 
 def gen_entries(rng, accented=False):
-    pool = WORDS + (ACCENTED if accented else [])
+    pool = WORDS + (ACCENTED if accented else []) + ODD
     n = rng.randrange(1, 9)
     entries = []
     used_sort = {}
